@@ -49,6 +49,19 @@ class PseudoNetCDFType(type):
 PseudoNetCDFSelfReg = PseudoNetCDFType('pnc', (object,), dict(__doc__='Test'))
 
 
+def _getncattr(obj, key):
+    """
+    Attribute through the netCDF interface when the object has one: plain
+    getattr on netCDF4 objects returns (or fails on) the library's own
+    python attribute for names such as scale, mask or name
+    """
+    getter = getattr(obj, 'getncattr', None)
+    if getter is None:
+        return getattr(obj, key)
+    else:
+        return getter(key)
+
+
 class PseudoNetCDFFile(PseudoNetCDFSelfReg, object):
     """
     PseudoNetCDFFile provides an interface and standard set of
@@ -973,7 +986,7 @@ class PseudoNetCDFFile(PseudoNetCDFSelfReg, object):
         vardict = {k: v for k, v in self.variables.items()}
         for pk in self.ncattrs():
             if pk not in vardict:
-                vardict[pk] = getattr(self, pk)
+                vardict[pk] = _getncattr(self, pk)
         vardict['np'] = np
         vardict['self'] = self
         from symtable import symtable
@@ -1002,7 +1015,7 @@ class PseudoNetCDFFile(PseudoNetCDFSelfReg, object):
                 except Exception:
                     pass
 
-        propd = dict([(k, getattr(tmpvar, k)) for k in tmpvar.ncattrs()])
+        propd = dict([(k, _getncattr(tmpvar, k)) for k in tmpvar.ncattrs()])
         propd['expression'] = expr
         dimt = tmpvar.dimensions
         vardict['outf'] = self
@@ -1363,7 +1376,7 @@ class PseudoNetCDFFile(PseudoNetCDFSelfReg, object):
         """
         outd = OrderedDict()
         for pk in self.ncattrs():
-            outd[pk] = getattr(self, pk)
+            outd[pk] = _getncattr(self, pk)
         return outd
 
     @classmethod
@@ -1464,7 +1477,7 @@ class PseudoNetCDFFile(PseudoNetCDFSelfReg, object):
         """
         outf = cls()
         for pk in infile.ncattrs():
-            pv = getattr(infile, pk)
+            pv = _getncattr(infile, pk)
             setattr(outf, pk, pv)
 
         for dk, dv in infile.dimensions.items():
@@ -2078,7 +2091,7 @@ class PseudoNetCDFFile(PseudoNetCDFSelfReg, object):
             newvaro = outf.copyVariable(
                 varo, key=vark, dimensions=odims, withdata=False)
             for pk in varo.ncattrs():
-                setattr(newvaro, pk, getattr(varo, pk))
+                setattr(newvaro, pk, _getncattr(varo, pk))
             if anyisarray and needsfancy:
                 point_arrays = []
                 for ii in range(arraylen):
@@ -2140,7 +2153,7 @@ class PseudoNetCDFFile(PseudoNetCDFSelfReg, object):
                 [dk for dk in v.dimensions if dk not in removed_dims])
             sdims = tuple([(di, dk) for di, dk in enumerate(
                 olddims) if dk not in newdims])[::-1]
-            propd = dict([(pk, getattr(v, pk)) for pk in v.ncattrs()])
+            propd = dict([(pk, _getncattr(v, pk)) for pk in v.ncattrs()])
             ov = outf.createVariable(vk, v.dtype.char, newdims, **propd)
             outvals = v[...]
             for di, dk in sdims:
@@ -2365,7 +2378,7 @@ class PseudoNetCDFFile(PseudoNetCDFSelfReg, object):
             key, dtype, dimensions, fill_value=fill_value)
         attrs = OrderedDict()
         for propk in var.ncattrs():
-            attrs[propk] = getattr(var, propk)
+            attrs[propk] = _getncattr(var, propk)
         myvar.setncatts(attrs)
         if withdata:
             try:
@@ -2668,7 +2681,7 @@ class netcdf(PseudoNetCDFFile, NetCDFFile):
     def from_ncf(cls, infile):
         outf = PseudoNetCDFFile()
         for pk in infile.ncattrs():
-            pv = getattr(infile, pk)
+            pv = _getncattr(infile, pk)
             setattr(outf, pk, pv)
 
         for dk, dv in infile.dimensions.items():
